@@ -938,7 +938,13 @@ func IsNilConst(v ssa.Value) bool {
 }
 
 // BlockDominatesInstr: every path to `in` enters block b first (b == in.Block() counts).
+// b is always the target of a conditional edge: when b has other predecessors as well, entering b
+// does not imply that edge was taken (go/ssa does not split critical edges), so nothing is dominated
+// by the edge.
 func BlockDominatesInstr(b *ssa.BasicBlock, in ssa.Instruction) bool {
+	if len(b.Preds) > 1 {
+		return false
+	}
 	return b == in.Block() || b.Dominates(in.Block())
 }
 
